@@ -32,8 +32,8 @@ use crate::model::tombstones;
 type Set2 = OrSWotSet<2>;
 type Cs = ConsistencyService<MemStore>;
 
-fn free_addr() -> SocketAddr {
-    std::net::TcpListener::bind("127.0.0.1:0").unwrap().local_addr().unwrap()
+fn free_addr() -> std::net::SocketAddr {
+    vcommon::free_addr()
 }
 
 /// Several harness processes pick ports at the same time: a port seen free may be taken a moment later.
@@ -266,7 +266,7 @@ async fn run_behaviour(rig: &Rig, b: &Value, idx: u64, f: u64, coarse: bool, tra
                 let me = &rig.nodes[&n];
                 let peer = &rig.nodes[&p];
                 coarse_done.insert((n, p));
-                if idx <= 3 {
+                if idx <= 3 && !tracked {
                     let mut members = BTreeMap::new();
                     members.insert(peer.id, peer.addr);
                     repair::repair_round(&me.grp(), &me.network, &members).await;
@@ -500,7 +500,7 @@ pub async fn replay() {
     let behaviours: Vec<Value> = behaviours.into_iter().enumerate().filter(|(i, _)| i % slice[1] == slice[0]).map(|(_, b)| b).collect();
     for (idx, b) in behaviours.iter().enumerate() {
         let has_restart = b["hist"].as_array().unwrap().iter().any(|s| s["a"] == "restart");
-        if in_rig >= 20_000 || has_restart || last_had_restart || (coarse && in_rig >= 30) || tracked {
+        if in_rig >= 20_000 || has_restart || last_had_restart || (coarse && in_rig >= 30) || (tracked && in_rig >= 10) {
             rig = Rig::new(&ids).await;
             in_rig = 0;
         }
